@@ -50,8 +50,8 @@ def plans(ctx):
                 cells = nd * (2 if f == 3 else 3)
                 vals = (0, 1, 3) if cells <= 6 else (0, 2)          # 729 spectra at most with three values, 4096 with two
                 if cells >= 12:
-                    for ft in ((0, 1), (2, 4)):
-                        jobs.append((vals, (f,), (d,), ft, dt, rots if ft == (0, 1) else ()))
+                    jobs.append((vals, (f,), (d,), (0, 1), dt, rots))
+                    jobs.append((vals, (f,), (d,), (2, 4), dt[:2], ()))       # finer / extended frequency targets x (keep, same) directions
                 else:
                     jobs.append((vals, (f,), (d,), (0, 1, 2, 4), dt, rots))
     return jobs
